@@ -36,6 +36,8 @@ type c08World struct {
 	stopped    bool
 	useTimer   bool
 	twoKeys    bool
+	retryOnRun int // this run of the root asks for a retry (RetrySentinelError) after registering its resources
+	retryChild int // this run of the cached child does
 }
 
 func (w *c08World) newRes(name string) *c08Res {
@@ -57,6 +59,9 @@ func (w *c08World) child(ctx context.Context) (interface{}, error) {
 	v := w.data
 	if w.useTimer {
 		InvalidateAfter(ctx, time.Hour)
+	}
+	if w.childRuns == w.retryChild {
+		return nil, RetrySentinelError
 	}
 	return v, nil
 }
@@ -91,6 +96,9 @@ func (w *c08World) compute(ctx context.Context) (interface{}, error) {
 		}
 	}
 	nondet.Yield()
+	if w.runs == w.retryOnRun {
+		return nil, RetrySentinelError
+	}
 	w.lastData, w.lastCtl, w.lastOK = out, ctl, true
 	return nil, nil
 }
@@ -116,6 +124,7 @@ type c08Opts struct {
 	twoKeys  bool // second cached child by choice
 	strobe   bool // strobe instead of invalidate by choice
 	stop     bool // Stop at any point by choice
+	retry    bool // a run of the root or of the cached child asks for a retry, by choice
 }
 
 func c08Run(o c08Opts) {
@@ -124,6 +133,14 @@ func c08Run(o c08Opts) {
 	w.useTimer = o.timer && nondet.Choice("timer", 2) == 1
 	w.twoKeys = o.twoKeys && nondet.Choice("twoKeys", 2) == 1
 	strobe := o.strobe && nondet.Choice("strobe", 2) == 1
+	if o.retry {
+		switch nondet.Choice("retry", 3) {
+		case 1:
+			w.retryOnRun = 1 + nondet.Choice("retryOn", 2)
+		case 2:
+			w.retryChild = 1 + nondet.Choice("retryChildOn", 2)
+		}
+	}
 	var purgeCtx context.Context
 	r := NewRerunner(context.Background(), func(ctx context.Context) (interface{}, error) {
 		purgeCtx = ctx
@@ -192,6 +209,12 @@ func VerifC08Conditional() {
 // without an InvalidateAfter timer: every registered resource is cleaned once.
 func VerifC08StopDuringRun() {
 	c08Run(c08Opts{script: []int{1}, maxRuns: 5, timer: true, stop: true})
+}
+
+// VerifC08Retry: a run of the root or of the cached child asks for a retry after
+// it has registered its resources; one data change; Stop by choice.
+func VerifC08Retry() {
+	c08Run(c08Opts{script: []int{1}, maxRuns: 6, retry: true, stop: true})
 }
 
 // VerifC08Two: every writer script of 1-2 steps over {toggle, data}.
